@@ -254,6 +254,8 @@ func errClass(msg string) string {
 		return "err:keyformat"
 	case strings.Contains(m, "snappy"), strings.Contains(m, "corrupt"):
 		return "err:corrupt"
+	case strings.Contains(m, "symbols in a query must have the same data type"):
+		return "err:symbolschema"
 	case strings.Contains(m, "unexpected data type"):
 		return "err:type"
 	case strings.Contains(m, "timeframe"):
@@ -412,21 +414,21 @@ func (in *Inst) runStoreStep(step string) string {
 			return "Q=0[]"
 		}
 		var parts []string
+		unrestricted := f[2] == "-" && f[3] == "-" && f[4] == "-" && f[5] == "-" && f[6] == "-" && (len(f) <= 8 || f[8] == "-")
 		for _, k := range keys {
-			if len(keys) == 1 {
-				unrestricted := f[2] == "-" && f[3] == "-" && f[4] == "-" && f[5] == "-" && f[6] == "-" && (len(f) <= 8 || f[8] == "-")
-				if w, isVar := in.vwritten[k]; isVar && unrestricted {
-					tfd, _ := mio.NewTimeBucketKey(k).GetTimeFrame()
-					v := ";V=bad"
-					if c09ok(int64(tfd.Duration), w, csRows(byKey[k])) {
-						v = ";V=ok"
-					}
-					parts = append(parts, renderCS(byKey[k])+v)
-					continue
+			body := renderCS(byKey[k])
+			if w, isVar := in.vwritten[k]; isVar && unrestricted {
+				tfd, _ := mio.NewTimeBucketKey(k).GetTimeFrame()
+				if c09ok(int64(tfd.Duration), w, csRows(byKey[k])) {
+					body += ";V=ok"
+				} else {
+					body += ";V=bad"
 				}
-				parts = append(parts, renderCS(byKey[k]))
+			}
+			if len(keys) == 1 {
+				parts = append(parts, body)
 			} else {
-				parts = append(parts, k+"~"+renderCS(byKey[k]))
+				parts = append(parts, k+"~"+body)
 			}
 		}
 		return "Q=" + strings.Join(parts, "&")
